@@ -221,7 +221,7 @@ impl<'a> SubDeviceRef<'a> {
 impl MainDevice {
 /*@fn file=src/maindevice.rs impl="impl<'sto> MainDevice<'sto>" name=single_pdu subst="&'sto self=>&self@@ReceivedPdu<'sto>=>ReceivedPdu@@frame.await?=>frame.wait().await?" props=C01,C11
     requires
-        self.pdu_loop.area <= 0x7ff, data.packed().len() <= 0xffff,
+        self.pdu_loop.area <= 0x7ff, self.cfg_ok(), data.packed().len() <= 0xffff,
     ensures
         // Ok(v) => ONE datagram with exactly this command and max(data length, override) data bytes was sent, and v is what came
         // back for it: its data area and its working counter (which the callers of `common` then compare - C11)
@@ -238,11 +238,20 @@ impl Command {
 }
 impl PduLoop {
 /*@fn file=src/pdu_loop/mod.rs impl="impl<'sto> PduLoop<'sto>" name=pdu_broadcast_zeros subst="self.storage.alloc_frame()=>self.alloc_frame()@@crate::timer_factory::LabeledTimeout=>LabeledTimeout@@frame.await?=>frame.wait().await?" props=C04,C09
-    requires self.area <= 0x7ff
+    requires self.area <= 0x7ff, timeout == self.cfg_timeout@, retries == self.cfg_retries@     // (blank_memory passes timeouts.pdu() and the configured retry count)
     ensures
         // Ok => ONE broadcast write (address 0, this register) whose data area is `payload_length` bytes and carries no caller data
         // (push_pdu zero-fills it: unit created_frame / Kani frame_build) went out and was answered
         r is Ok ==> exists|g: RxPdu| #[trigger] answered(Command::Write(Writes::Bwr { address: 0, register }), g) && g.data.len() == payload_length,
+@*/
+}
+
+impl MainDevice {
+/*@fn file=src/maindevice.rs impl="impl<'sto> MainDevice<'sto>" name=blank_memory subst="impl Into<u16>=>u16@@start.into()=>start" truncate_casts=1 props=C09,C06
+    requires self.pdu_loop.area <= 0x7ff, self.cfg_ok(), LEN <= 0xffff
+    ensures
+        // Ok => LEN zero bytes were broadcast-written at `start` (one datagram, configured timeout and retries) and answered
+        r is Ok ==> exists|g: RxPdu| #[trigger] answered(Command::Write(Writes::Bwr { address: 0, register: start }), g) && g.data.len() == LEN,
 @*/
 }
 
@@ -273,7 +282,7 @@ impl<const MAX_PDI: usize> Grp<MAX_PDI> {
 /*@fn file=src/subdevice_group/mod.rs impl="impl<const MAX_SUBDEVICES: usize, const MAX_PDI: usize, R: RawRwLock, S, DC> SubDeviceGroup<MAX_SUBDEVICES, MAX_PDI, R, S, DC>" name=tx_rx subst="<'sto>=><const MAX_SUBDEVICES: usize>@@&'sto MainDevice<'sto>=>&MainDevice@@self.inner().pdi_start.start_address=>self.start_address@@self.inner().subdevices.iter()=>self.sd_iter()@@heapless::Vec::<_, MAX_SUBDEVICES>::new()=>StateVec::<MAX_SUBDEVICES>::new()@@frame.await?=>frame.wait().await?" props=C07 attr="#[verifier::loop_isolation(false)] #[verifier::allow_complex_invariants]"
     requires
         self.wf(),
-        14 <= maindevice.pdu_loop.area <= 0x7ff,       // frame sizes from "can carry one state check" up (C07 quantifier)
+        14 <= maindevice.pdu_loop.area <= 0x7ff, maindevice.cfg_ok(),       // frame sizes from "can carry one state check" up (C07 quantifier)
         self.start_address + self.pdi_len <= u32::MAX,
         self.subdevices@.len() <= 0xffff,
         self.subdevices@.len() <= MAX_SUBDEVICES,       // the group was built with this capacity
@@ -349,7 +358,7 @@ impl<const MAX_PDI: usize> Grp<MAX_PDI> {
 /*@fn file=src/subdevice_group/mod.rs impl="impl<const MAX_SUBDEVICES: usize, const MAX_PDI: usize, R: RawRwLock, S, DC> SubDeviceGroup<MAX_SUBDEVICES, MAX_PDI, R, S, DC>" name=tx_rx_sync_system_time subst="<'sto>=><const MAX_SUBDEVICES: usize>@@&'sto MainDevice<'sto>=>&MainDevice@@self.inner().pdi_start.start_address=>self.start_address@@self.inner().subdevices.iter()=>self.sd_iter()@@heapless::Vec::<_, MAX_SUBDEVICES>::new()=>StateVec::<MAX_SUBDEVICES>::new()@@frame.await?=>frame.wait().await?@@u64::unpack_from_slice(&rx).map_err(Error::from)=>u64_unpack_from_slice(&rx).map_err(|e: WireError| -> (me: Error) ensures me == Error::Wire(e) { Error::from(e) })" props=C07 attr="#[verifier::loop_isolation(false)] #[verifier::allow_complex_invariants]" __brk0="Result<TxRxResponse<MAX_SUBDEVICES, Option<u64>>, Error>"
     requires
         self.wf(),
-        34 <= maindevice.pdu_loop.area <= 0x7ff,
+        34 <= maindevice.pdu_loop.area <= 0x7ff, maindevice.cfg_ok(),
         self.start_address + self.pdi_len <= u32::MAX,
         self.subdevices@.len() <= 0xffff,
         self.subdevices@.len() <= MAX_SUBDEVICES,
@@ -427,7 +436,7 @@ impl<const MAX_PDI: usize> Grp<MAX_PDI> {
 /*@fn file=src/subdevice_group/mod.rs impl="impl<const MAX_SUBDEVICES: usize, const MAX_PDI: usize, R: RawRwLock, S> SubDeviceGroup<MAX_SUBDEVICES, MAX_PDI, R, S, HasDc>" name=tx_rx_dc subst="<'sto>=><const MAX_SUBDEVICES: usize>@@&'sto MainDevice<'sto>=>&MainDevice@@self.inner().pdi_start.start_address=>self.start_address@@self.inner().subdevices.iter()=>self.sd_iter()@@heapless::Vec::<_, MAX_SUBDEVICES>::new()=>StateVec::<MAX_SUBDEVICES>::new()@@frame.await?=>frame.wait().await?@@u64::unpack_from_slice(&rx).map_err(Error::from)=>u64_unpack_from_slice(&rx).map_err(|e: WireError| -> (me: Error) ensures me == Error::Wire(e) { Error::from(e) })" props=C07,C18 attr="#[verifier::loop_isolation(false)] #[verifier::allow_complex_invariants]"
     requires
         self.wf(),
-        34 <= maindevice.pdu_loop.area <= 0x7ff,      // the clock datagram (20 bytes) plus one state check (14 bytes) fit
+        34 <= maindevice.pdu_loop.area <= 0x7ff, maindevice.cfg_ok(),      // the clock datagram (20 bytes) plus one state check (14 bytes) fit
         self.start_address + self.pdi_len <= u32::MAX,
         self.subdevices@.len() <= 0xffff,
         self.subdevices@.len() <= MAX_SUBDEVICES,
@@ -511,7 +520,7 @@ impl<const MAX_PDI: usize> Grp<MAX_PDI> {
 
 /*@fn file=src/subdevice_group/mod.rs impl="impl<const MAX_SUBDEVICES: usize, const MAX_PDI: usize, R: RawRwLock, S, DC> SubDeviceGroup<MAX_SUBDEVICES, MAX_PDI, R, S, DC>" name=is_state subst="MainDevice<'_>=>MainDevice@@self.inner().subdevices.iter()=>self.sd_iter()@@frame.await?=>frame.wait().await?" props=C10 attr="#[verifier::loop_isolation(false)] #[verifier::allow_complex_invariants]"
     requires
-        maindevice.pdu_loop.area <= 0x7ff,
+        maindevice.pdu_loop.area <= 0x7ff, maindevice.cfg_ok(),
         maindevice.pdu_loop.area >= 14,                 // a frame can carry at least one state check (C07/C10 quantifier)
         self.subdevices@.len() <= 0xffff,
     ensures
@@ -563,7 +572,7 @@ impl<const MAX_PDI: usize> Grp<MAX_PDI> {
 
 /*@fn file=src/subdevice_group/mod.rs impl="impl<const MAX_SUBDEVICES: usize, const MAX_PDI: usize, R: RawRwLock, S, DC> SubDeviceGroup<MAX_SUBDEVICES, MAX_PDI, R, S, DC>" name=wait_for_state subst="MainDevice<'_>=>MainDevice" timeouts=1 props=C10 attr="#[verifier::loop_isolation(false)] #[verifier::allow_complex_invariants]" __brk0="Result<(), Error>"
     requires
-        maindevice.pdu_loop.area <= 0x7ff,
+        maindevice.pdu_loop.area <= 0x7ff, maindevice.cfg_ok(),
         maindevice.pdu_loop.area >= 14,
         self.subdevices@.len() <= 0xffff,
     ensures
@@ -581,7 +590,7 @@ impl<const MAX_PDI: usize> Grp<MAX_PDI> {
 
 /*@fragment file=src/subdevice_group/mod.rs impl="impl<const MAX_SUBDEVICES: usize, const MAX_PDI: usize, R: RawRwLock, S, DC> SubDeviceGroup<MAX_SUBDEVICES, MAX_PDI, R, S, DC>" fn=transition_to from="@start" to="self.wait_for_state(maindevice, desired_state).await?;" name=transition_request_and_wait qual="pub async" sig="&mut self, maindevice: &MainDevice, desired_state: SubDeviceState -> (r: Result<(), Error>)" tail="Ok(())" subst="self.inner.get_mut().subdevices.iter_mut()=>self.sd_iter_mut()" props=C10 attr="#[verifier::loop_isolation(false)]"
     requires
-        maindevice.pdu_loop.area <= 0x7ff,
+        maindevice.pdu_loop.area <= 0x7ff, maindevice.cfg_ok(),
         maindevice.pdu_loop.area >= 14,
         old(self).subdevices@.len() <= 0xffff,
     ensures
